@@ -30,6 +30,10 @@ pub enum Script {
 }
 
 pub struct ScriptState {
+    /// scores already handed out, by vector: the state is a function of its parameters on
+    /// every point visited (the optimiser re-scores the state it holds at the end of a run)
+    pub memo: std::collections::HashMap<u64, Option<f64>>,
+    pub ring: std::collections::VecDeque<(u64, Option<f64>)>,
     pub calls: u64,
     pub best: f64,
     pub worst: f64,
@@ -61,7 +65,7 @@ impl Scripted {
             vals: init.iter().map(|v| SharedValue::new(*v)).collect(),
             bounds: bounds.to_vec(),
             script,
-            st: Arc::new(Mutex::new(ScriptState { calls: 0, best: START_SCORE, worst: START_SCORE, anchor: START_SCORE, rng: seed | 1 })),
+            st: Arc::new(Mutex::new(ScriptState { memo: std::collections::HashMap::new(), ring: std::collections::VecDeque::new(), calls: 0, best: START_SCORE, worst: START_SCORE, anchor: START_SCORE, rng: seed | 1 })),
             sink,
         }
     }
@@ -85,7 +89,19 @@ impl State for Scripted {
         let mut st = self.st.lock().unwrap();
         let call = st.calls;
         st.calls += 1;
-        let (score, label): (Option<f64>, char) = if call == 0 {
+        let key = {
+            let mut h: u64 = 0xcbf2_9ce4_8422_2325;
+            for x in v.iter() {
+                h = (h ^ x.to_bits()).wrapping_mul(0x100_0000_01b3);
+                h ^= h >> 29;
+            }
+            h
+        };
+        let long_run = matches!(self.script, Script::Probe { .. });
+        let known = if long_run { st.ring.iter().rev().find(|(k, _)| *k == key).map(|(_, s)| *s) } else { st.memo.get(&key).copied() };
+        let (score, label): (Option<f64>, char) = if let (Some(s), true) = (known, call > 0) {
+            (s, 'M')
+        } else if call == 0 {
             match &self.script {
                 Script::Bowl { centre, .. } => (Some(-v.iter().zip(centre.iter()).map(|(x, c)| (x - c) * (x - c)).sum::<f64>()), 'I'),
                 _ => (Some(START_SCORE), 'I'),
@@ -147,6 +163,16 @@ impl State for Scripted {
                 }
             }
         };
+        if label != 'M' {
+            if long_run {
+                st.ring.push_back((key, score));
+                if st.ring.len() > 512 {
+                    st.ring.pop_front();
+                }
+            } else {
+                st.memo.insert(key, score);
+            }
+        }
         drop(st);
         if let Ok(mut k) = self.sink.lock() {
             k.on_score(call, &v, score, label);
